@@ -41,6 +41,7 @@ type World struct {
 	funcIdx  map[string]map[string]*ssa.Function // pkg path -> RelString -> fn
 	e1cache  *e1State
 	frameCache map[string]*frameResult
+	renv       *rangeEnv
 }
 
 func repoDir() string {
